@@ -106,12 +106,47 @@ def gen_cases(ctx):
     return cases
 
 
+def reader_history(di, d, ncol):
+    """Earlier reads in the same process (objects with a history, harness/warm.py, for files): files with
+    the same number of columns read with column / key restrictions, with and without a header line, as
+    CSV and JSON.  A later unrestricted round trip must not see anything of it."""
+    from harness import warm
+    import json as _json
+    names = ["a", "b", "c", "d", "e", "f", "g"][:ncol]
+    if ncol < 2:
+        return
+    rows = [[str(i * 10 + j) for j in range(ncol)] for i in range(3)]
+    for hdr in (True, False):
+        p = os.path.join(d, f"history-{int(hdr)}.csv")
+        with open(p, "w", encoding="utf-8") as f:
+            if hdr:
+                f.write(",".join("h" + n for n in names) + "\n")
+            for r in rows:
+                f.write(",".join(r) + "\n")
+        cols = [("h" + names[-1]) if hdr else names[-1]]
+        warm._quiet(lambda: di.ListOfDicts.read_csv(p, header=hdr, keys=cols))
+        warm._quiet(lambda: di.DataFrame.read_csv(p, header=hdr, columns=cols))
+        warm._quiet(lambda: di.read_csv(p, header=hdr, columns=cols, dtypes={cols[0]: str}))
+        os.remove(p)
+    p = os.path.join(d, "history.json")
+    with open(p, "w", encoding="utf-8") as f:
+        _json.dump([dict(zip(names, r)) for r in rows], f)
+    warm._quiet(lambda: di.ListOfDicts.read_json(p, keys=names[-1:]))
+    warm._quiet(lambda: di.DataFrame.read_json(p, columns=names[-1:]))
+    warm._quiet(lambda: di.DataFrame.read_json(p, columns=names[-1:], dtypes={names[-1]: str}))
+    os.remove(p)
+
+
 def impl(case):
     import dataiter as di
+    from harness import warm
     fmt, suf, enc = case["format"], case["suffix"], case["encoding"]
     d = tempfile.mkdtemp(prefix="verif-c12-")
     res = {}
     try:
+        if warm.ENABLED:
+            ncol = len(case["frame"]["cols"]) if "frame" in case else max([len(x) for x in case.get("dicts", [])] + [0])
+            reader_history(di, d, ncol)
         ext = {"pickle": ".pkl", "npz": ".npz", "parquet": ".parquet", "csv": ".csv", "json": ".json",
                "lod_pickle": ".pkl", "lod_json": ".json", "lod_csv": ".csv"}[fmt]
         path = os.path.join(d, "t" + ext + suf)
